@@ -4,6 +4,7 @@ import CCVerif.Lemmas.CheckerErr
 import CCVerif.Lemmas.CheckerSound
 import CCVerif.Lemmas.CheckerSound1
 import CCVerif.Lemmas.CheckerSoundTop
+import CCVerif.Lemmas.CheckerCompleteTop
 import CCVerif.Lemmas.CheckerTotal
 import CCVerif.Model.CheckerPinned
 import CCVerif.Model.CheckerPinnedRec
@@ -1104,5 +1105,122 @@ example : (vcheck ctxVF 5 (.node .NT_FUNC_CALL .none 0 6 [.node .ID_FUNCTION (.t
     = some .value := by decide +kernel
 example : (vcheck ctxVF 5 (.node .NT_FUNC_CALL .none 0 10 [.node .ID_FUNCTION (.text "F1") 0 2 [],
     .node .BOOLEAN .none 3 9 [glob "X1" 6 8]])).out = some .props := by decide +kernel
+
+/-! ## completeness on a fragment: the checker decides the typing relation there -/
+
+/-- COMPLETENESS of the checker model on the fragment `CFragTop` (Lemmas/CheckerCompleteTop: trees of the
+grammar's shape built from everything except R{}, Fi and calls F[…]; whole inputs: expression,
+function definition `[x1∈D1, …] body`, `X1:==`, `D1:==def`, `S1::=dom`): a whole input that has a type in
+the declarative system is ACCEPTED, with EXACTLY that type and that argument list — including inputs
+that mention `∅` / the any-type `R0` (on the fragment the relation is functional, see
+`type_unique_partial1`). The hypothesis `hxs` says that the derivation names the declared arguments
+as the input does (`ArgDecls.cons` of Spec/Typing.lean leaves the name free — spec looseness, see
+`check_complete_needs_argnames_counterexample`); for inputs other than function definitions it reads
+`args = []`, which every derivation satisfies. -/
+theorem check_complete_partial1 (Γ : Ctx) (xs : List String) (e : Ast) (τ : ExprTy) (args : List (String × Ty))
+    (hc : CFragTop Γ xs e) (hxs : args.map Prod.fst = xs) (h : HasTopType Γ e τ args) :
+    (check Γ e).out = .ok τ ∧ (check Γ e).args = args :=
+  cfrag_check_complete Γ hc τ args h hxs
+
+/-- on the fragment the declarative relation is functional: type and argument list are unique -/
+theorem type_unique_partial1 (Γ : Ctx) (xs : List String) (e : Ast) (τ τ' : ExprTy) (args args' : List (String × Ty))
+    (hc : CFragTop Γ xs e) (hxs : args.map Prod.fst = xs) (hxs' : args'.map Prod.fst = xs)
+    (h : HasTopType Γ e τ args) (h' : HasTopType Γ e τ' args') : τ = τ' ∧ args = args' := by
+  obtain ⟨a1, a2⟩ := check_complete_partial1 Γ xs e τ args hc hxs h
+  obtain ⟨b1, b2⟩ := check_complete_partial1 Γ xs e τ' args' hc hxs' h'
+  rw [a1] at b1
+  exact ⟨by cases b1; rfl, a2.symm.trans b2⟩
+
+/-- the checker DECIDES typability on the fragment: it accepts exactly the inputs that have a type
+(soundness `check_sound_partial1` + completeness `check_complete_partial1`), and the type it reports is
+the type -/
+theorem check_decides_partial1 (Γ : Ctx) (xs : List String) (e : Ast) (hw : WfTop Γ xs e) (hc : CFragTop Γ xs e) :
+    ((∃ τ, (check Γ e).out = .ok τ) ↔ ∃ τ args, HasTopType Γ e τ args ∧ args.map Prod.fst = xs) ∧
+    (∀ τ, (check Γ e).out = .ok τ ↔ ∃ args, HasTopType Γ e τ args ∧ args.map Prod.fst = xs) := by
+  have key : ∀ τ, (check Γ e).out = .ok τ ↔ ∃ args, HasTopType Γ e τ args ∧ args.map Prod.fst = xs := by
+    intro τ
+    constructor
+    · intro h
+      exact ⟨_, check_sound_partial1 Γ e τ hc.core1 h, args_reported Γ xs e hw τ h⟩
+    · rintro ⟨args, h, hxs⟩
+      exact (check_complete_partial1 Γ xs e τ args hc hxs h).1
+  refine ⟨⟨fun ⟨τ, h⟩ => ⟨τ, (key τ).mp h⟩, fun ⟨τ, args, h⟩ => ⟨τ, (key τ).mpr ⟨args, h⟩⟩⟩, key⟩
+
+/-- non-vacuity: `∀(a,b)∈S1 ∃x,y∈X1 (x=a & y∈D{z∈X1 | z=b})` is in the fragment and has a type -/
+example : CFragTop ctxK [] exBinders :=
+  .ofDef (.expr (Or.inr (.lQuant (Or.inl rfl)
+    (.deOfD (.dTuple (fun k hk => by
+      simp only [List.mem_cons, List.not_mem_nil, or_false] at hk
+      rcases hk with rfl | rfl <;> exact .dLocal)))
+    (.sGlobal (Or.inl rfl))
+    (.lQuant (Or.inr rfl)
+      (.deEnum (fun k hk => by
+        simp only [List.mem_cons, List.not_mem_nil, or_false] at hk
+        rcases hk with rfl | rfl <;> exact .dLocal))
+      (.sGlobal (Or.inl rfl))
+      (.lBin (Or.inl rfl) (.lEqual (Or.inl rfl) .sLocal .sLocal)
+        (.lElem (Or.inl rfl) .sLocal
+          (.sDeclarative .dLocal (.sGlobal (Or.inl rfl)) (.lEqual (Or.inl rfl) .sLocal .sLocal))))))))
+
+private theorem exImperative_frag : CFragTop ctxK [] exImperative :=
+  .ofDef (.expr (Or.inl (.sImperative
+    (.sMany (Or.inr rfl) (fun k hk => by
+      simp only [List.mem_cons, List.not_mem_nil, or_false] at hk
+      rcases hk with rfl | rfl <;> exact .sLocal))
+    (fun b hb => by
+      simp only [List.mem_cons, List.not_mem_nil, or_false] at hb
+      rcases hb with rfl | rfl | rfl
+      · exact .iterate .dLocal (.sGlobal (Or.inl rfl))
+      · exact .assign .dLocal .sLocal
+      · exact .cond (.lEqual (Or.inl rfl) .sLocal .sLocal)))))
+
+/-- non-vacuity: `I{(a, b) | a:∈X1; b:=a; a=b}` is in the fragment and has the type ℬ(X1×X1) -/
+example : CFragTop ctxK [] exImperative ∧
+    HasTopType ctxK exImperative (.ty (.coll (.tuple [.base "X1", .base "X1"]))) [] := by
+  refine ⟨exImperative_frag, ?_⟩
+  have h := check_sound_partial1 ctxK exImperative _ exImperative_frag.core1
+    (show (check ctxK exImperative).out = .ok (.ty (.coll (.tuple [.base "X1", .base "X1"]))) by decide +kernel)
+  have ha : (check ctxK exImperative).args = [] := by decide +kernel
+  rw [ha] at h; exact h
+
+/-- an ill-typed input of the fragment: `X1 ∪ S1` (ℬ(X1) against ℬ(X1×X1)) has NO type — the checker's
+rejection decides it -/
+example : ¬ ∃ τ args, HasTopType ctxK (.node .UNION .none 0 5 [glob "X1" 0 2, glob "S1" 3 5]) τ args ∧
+    args.map Prod.fst = [] := by
+  rintro ⟨τ, args, h, hxs⟩
+  have hc : CFragTop ctxK [] (.node .UNION .none 0 5 [glob "X1" 0 2, glob "S1" 3 5]) :=
+    .ofDef (.expr (Or.inl (.sSetbin (Or.inl rfl) (.sGlobal (Or.inl rfl)) (.sGlobal (Or.inl rfl)))))
+  have h1 := (check_complete_partial1 ctxK [] _ τ args hc hxs h).1
+  have h2 : (check ctxK (.node .UNION .none 0 5 [glob "X1" 0 2, glob "S1" 3 5])).out = .fail := by decide +kernel
+  rw [h2] at h1; cases h1
+
+
+/-- non-vacuity for a function definition: `[a∈D{x∈X1 | x=x}, x∈X1] a=x` is in the fragment; it has the
+type LOGIC with the arguments `a : X1, x : X1` (see the example after `check_sound_partial1`) -/
+example : CFragTop ctxK ["a", "x"] exArgs :=
+  .ofDef (.funcdef (by simp)
+    (.cons (.sDeclarative .dLocal (.sGlobal (Or.inl rfl)) (.lEqual (Or.inl rfl) .sLocal .sLocal))
+      (.cons (.sGlobal (Or.inl rfl)) .nil))
+    (Or.inr (.lEqual (Or.inl rfl) .sLocal .sLocal)))
+
+/-- `[a∈X1] b=b` -/
+def exArgName : Ast :=
+  .node .NT_FUNC_DEFINITION .none 0 11 [
+    .node .NT_ARGUMENTS .none 1 5 [.node .NT_ARG_DECL .none 1 5 [loc "a" 1 2, glob "X1" 3 5]],
+    .node .EQUAL .none 7 10 [loc "b" 7 8, loc "b" 9 10]]
+
+/-- why `check_complete_partial1` asks the derivation to use the argument names of the input: the rule
+`ArgDecls.cons` of Spec/Typing.lean does not tie the declared name to the text of the variable node, so
+`[a∈X1] b=b` is typable (declare the argument under the name `b`), and the checker — rightly — rejects
+it (`b` undeclared). A looseness of the SPECIFICATION, not a defect of the code. -/
+theorem check_complete_needs_argnames_counterexample :
+    HasTopType ctxK exArgName .logic [("b", .base "X1")] ∧ (check ctxK exArgName).out = .fail ∧
+      (0x8801, 7) ∈ (check ctxK exArgName).errs := by
+  refine ⟨?_, by decide +kernel, by decide +kernel⟩
+  exact HasTopType.funcdef
+    (ArgDecls.cons (x := "b") (HasType.global (Or.inl rfl) (by decide) (by decide)) (Debool.coll _) (by decide)
+      ArgDecls.nil)
+    (HasType.equal (t1 := .base "X1") (t2 := .base "X1") (Or.inl rfl)
+      (HasType.local_ (t := .base "X1") (by decide)) (HasType.local_ (t := .base "X1") (by decide)) (by decide))
 
 end CCVerif.C03
